@@ -370,3 +370,9 @@ func normBatch(b *clientpb.Batch) *clientpb.Batch {
 	}
 	return b
 }
+
+// WirePartialCert returns the partial certificate as a receiver would decode it from the wire
+// (every received vote is a fresh object; signature objects are never shared between messages).
+func WirePartialCert(pc hotstuff.PartialCert) hotstuff.PartialCert {
+	return hotstuffpb.PartialCertFromProto(wire(hotstuffpb.PartialCertToProto(pc), &hotstuffpb.PartialCert{}))
+}
